@@ -37,11 +37,23 @@ func (valdec sliceDecoder) Decode(dec *Decoder, p interface{}, tag byte) {
 	case TagList:
 		count := dec.ReadCount()
 		slice := reflect2.PtrOf(p)
-		valdec.t.UnsafeGrow(slice, count)
+		// the count comes from the wire: reserve a few elements and grow (geometrically) as the
+		// elements really arrive; stop at the first error, keeping what was decoded so far
+		n := count
+		if n > minPrealloc {
+			n = minPrealloc
+		}
+		valdec.t.UnsafeGrow(slice, n)
 		dec.AddReference(p)
-		for i := 0; i < count; i++ {
+		i := 0
+		for ; i < count && dec.Error == nil; i++ {
+			if i >= n {
+				n = i + 1
+				valdec.t.UnsafeGrow(slice, n)
+			}
 			valdec.decodeElem(dec, valdec.et, valdec.t.UnsafeGetIndex(slice, i))
 		}
+		(*sliceHeader)(slice).Len = i
 		dec.Skip()
 	default:
 		dec.defaultDecode(valdec.t.Type1(), p, tag)
